@@ -58,8 +58,6 @@ type dinst struct {
 	a, b, c int32
 	t       *typ
 	x       []int32
-	ac      []acStep
-	s       string
 	src     int32 // index of the originating instruction in Module.Instructions
 }
 
@@ -125,6 +123,8 @@ type program struct {
 	funcList   []*function
 	code       []dinst
 	edges      []edge
+	acs        [][]acStep // access-chain step lists, indexed by dinst.c
+	msgs       []string   // messages of xUnsupported, indexed by dinst.a
 	entries    []*entry
 	glslSets   map[uint32]bool
 	maxTmp     int
@@ -196,6 +196,9 @@ func buildProgram(m *Module) (*program, error) {
 	for i := range p.slot {
 		p.slot[i] = -1
 	}
+	p.code = make([]dinst, 0, len(m.Instructions))
+	p.tmpl = make([]uint32, 0, 4*int(m.Bound))
+	p.tmplPz = make([]uint8, 0, 4*int(m.Bound))
 	for id, name := range m.ExtImports {
 		if name == "GLSL.std.450" {
 			p.glslSets[id] = true
@@ -562,7 +565,7 @@ func (p *program) global(in *Inst) error {
 		p.unknownOps = true // decoration groups are not expanded: treat layout as unknown
 		return unsup("decoration groups")
 	default:
-		if _, ok := opTable[in.Op]; !ok {
+		if _, ok := lookupOp(in.Op); !ok {
 			p.unknownOps = true
 			return nil
 		}
